@@ -644,3 +644,26 @@ GET_ITEMDEF = REG.add(Contract(
     requires=lambda c: shape(c) + [("default-is-an-existing-item", z3.And(z3.Select(c.h("$alloc"), c.a["default"].t), c.a["default"].t != c.a["self"].t))],
     ensures=get_item_default_post, ghost_init=get_ghost, returns=HI, properties=("C15",), may_raise=["Any"]))
 GET_ITEMDEF.note = "np.array(default.data) for a CurveItem default is an opaque numpy call that may raise"
+
+
+# ---------------------------------------------------------------- __setattr__ with an item: `section.NAME = HeaderItem(...)` (C13, C15)
+class _ValueAsNewitem:
+    """the parameter is called `value` here; the shared mutator clauses speak of `newitem`"""
+    def __init__(s, c):
+        s.__dict__.update(c.__dict__)
+        s.a = dict(c.a); s.a["newitem"] = c.a["value"]
+        s._c = c
+
+    def h(s, f): return s._c.h(f)
+    def old(s, f): return s._c.old(f)
+    def g(s, f): return s._c.g(f)
+    def v(s, f): return s._c.v(f)
+
+
+SETATTR_ITEM = REG.add(Contract(
+    "las_items.SectionItems.__setattr__", case="item", params={"self": SI, "key": STR, "value": HI},
+    requires=lambda c: mutator_pre(_ValueAsNewitem(c)),
+    raises=[("AssertionError", lambda c: z3.And(nomatch(View(c), c.a["key"].t), z3.Select(View(c).sess, c.a["value"].t) != c.a["key"].t))],
+    ensures=lambda c: set_item_post(_ValueAsNewitem(c)),
+    modifies=dict(SEQ_FRAME, mnemonic=lambda c, r: group_of_new(_ValueAsNewitem(c), r)),
+    properties=("C13", "C15")))
